@@ -119,6 +119,14 @@ def misc_cases(rng, n, ctx):
                       'flt': rat(float(o)), 'lt': bool(o < x), 'le': bool(o <= x), 'gt': bool(o > x), 'ge': bool(o >= x), 'zw': zw,
                       'iszero': bool(o.is_zero())})
         ctx.nontrivial.add(('misc', i))
+        if i % 5 == 0:
+            # the same views far down the 30 decades: a value of 1e-11 that is ten standard errors away from zero
+            t = pe.cov_Obs(float(rng.uniform(0.5, 5.0)) * 1e-11 * (1 if rng.random() < 0.5 else -1), (float(rng.uniform(0.5, 2.0)) * 1e-12) ** 2, 'tiny')
+            t.gamma_method()
+            xt = float(t.value) * float(rng.choice([0.999, 1.001, 1.0]))
+            cases.append({'id': 'm%04d-views-tiny' % i, 'ev': 'views', 'value': rat(float(t.value)), 'dvalue': rat(float(t.dvalue)), 'x': rat(xt),
+                          'flt': rat(float(t)), 'lt': bool(t < xt), 'le': bool(t <= xt), 'gt': bool(t > xt), 'ge': bool(t >= xt),
+                          'zw': [{'sigma': rat(sg), 'res': bool(t.is_zero_within_error(sg))} for sg in (1, 3, 50)], 'iszero': bool(t.is_zero())})
     return cases
 
 
